@@ -508,4 +508,215 @@ theorem and_words {n L : Nat} {ps : List Party} (hst : St n L ps) (hn : 0 < n) (
   rw [ha, hb, hc, ← hst.valid k (by omega), ← hDk, ← hEk]
   exact beaver_word _ _ _ _
 
+theorem bit_def (z : Words) (i : Nat) : bit z i = (wget z (i / 64)).getLsbD (i % 64) := rfl
+
+theorem sim_ands {n N L : Nat} {ps : List Party} {S : Store Bool} (hst : St n L ps) (hn : 0 < n)
+    (hsim : Sim N ps S) (batch : List Gate) (hne : batch ≠ []) (hop : ∀ g ∈ batch, g.op = .and)
+    (hout : ∀ g ∈ batch, g.out < N) (hnd : (batch.map (·.out)).Nodup)
+    (hind : ∀ g ∈ batch, ∀ h ∈ batch, h.out ≠ g.in0 ∧ h.out ≠ g.in1)
+    (hW : (batch.length + 63) / 64 ≤ L) :
+    ∃ ps', andStep batch ps = some ps' ∧ St n (L - (batch.length + 63) / 64) ps' ∧
+      Sim N ps' (evalPlainGates batch S) := by
+  obtain ⟨hS, hsz, hrec⟩ := hsim
+  have hall : ∀ p ∈ ps, (batch.length + 63) / 64 ≤ p.pool.words := fun p hp => by
+    rw [(hst.pwf p hp).2]; exact hW
+  have hemp : batch.isEmpty = false := by
+    cases batch with
+    | nil => exact absurd rfl hne
+    | cons _ _ => rfl
+  refine ⟨_, andStep_eq batch ps hemp hall, ?_, ?_⟩
+  all_goals
+    simp only []
+    generalize hWd : (batch.length + 63) / 64 = W at *
+    generalize hds : ((ps.map (getT batch.length)).map fun q => (q.id, (maskedDE q batch.toArray W).1)) = ds
+    generalize hes : ((ps.map (getT batch.length)).map fun q => (q.id, (maskedDE q batch.toArray W).2)) = es
+  · -- state invariant
+    have hspec : ∀ p ∈ ps, _ := fun p hp =>
+      getT_spec batch.length p (hst.trip p hp).1 (hst.trip p hp).2 (hst.pwf p hp).1
+        (by rw [hWd]; exact hall p hp)
+    refine ⟨?_, ?_, ?_, ?_⟩
+    · have := hst.ids
+      unfold Ids at this ⊢
+      simp only [List.map_map]
+      exact this
+    · intro q hq
+      simp only [List.mem_map] at hq
+      obtain ⟨q1, ⟨p, hp, rfl⟩, rfl⟩ := hq
+      exact ⟨clear_words _, clear_WF _⟩
+    · intro q hq
+      simp only [List.mem_map] at hq
+      obtain ⟨q1, ⟨p, hp, rfl⟩, rfl⟩ := hq
+      have h := hspec p hp
+      rw [hWd] at h
+      exact ⟨h.2.2.2.1, by rw [← (hst.pwf p hp).2]; exact h.2.2.2.2.1⟩
+    · intro k hk
+      have e : ∀ (f : Triples → Words),
+          (∀ p ∈ ps, wget (f (getT batch.length p).pool) k = wget (f p.pool) (k + W)) →
+          (((ps.map (getT batch.length)).map (finP batch W ds es)).map fun p => wget (f p.pool) k) =
+            ps.map fun p => wget (f p.pool) (k + W) := by
+        intro f hf
+        simp only [List.map_map]
+        apply List.map_congr_left
+        intro p hp
+        exact hf p hp
+      have hk' : ∀ p ∈ ps, k < p.pool.words - W := fun p hp => by rw [(hst.pwf p hp).2]; exact hk
+      rw [e (·.a) (fun p hp => by have h := hspec p hp; rw [hWd] at h; exact (h.2.2.2.2.2.2 k (hk' p hp)).1),
+        e (·.b) (fun p hp => by have h := hspec p hp; rw [hWd] at h; exact (h.2.2.2.2.2.2 k (hk' p hp)).2.1),
+        e (·.c) (fun p hp => by have h := hspec p hp; rw [hWd] at h; exact (h.2.2.2.2.2.2 k (hk' p hp)).2.2)]
+      exact hst.valid (k + W) (by omega)
+  · -- simulation
+    have hSb : ∀ g ∈ batch, g.out < S.size := fun g hg => by rw [hS]; exact hout g hg
+    refine ⟨by rw [evalPlainGates_size]; exact hS, ?_, ?_⟩
+    · intro q hq
+      simp only [List.mem_map] at hq
+      obtain ⟨q1, ⟨p, hp, rfl⟩, rfl⟩ := hq
+      simp only [finP, setOuts_eq, setOutsFrom_size]
+      exact hsz p hp
+    · intro x
+      rw [recon_def, List.map_map, List.map_map]
+      by_cases hx : ∃ g ∈ batch, g.out = x
+      · obtain ⟨g, hg, rfl⟩ := hx
+        obtain ⟨j, hj, rfl⟩ := List.getElem_of_mem hg
+        rw [evalPlain_indep batch S hnd hSb hind _ hg, hop _ hg]
+        -- every party's new share of the output wire is bit j of its z
+        have h1 : (ps.map (((fun p : Party => p.wires.get batch[j].out) ∘ finP batch W ds es) ∘ getT batch.length)) =
+            (ps.map (getT batch.length)).map fun q => bit (andZ q (openAt q.id (maskedDE q batch.toArray W).1 ds)
+              (openAt q.id (maskedDE q batch.toArray W).2 es) W) j := by
+          rw [List.map_map]
+          apply List.map_congr_left
+          intro p hp
+          simp only [Function.comp, finP, setOuts_eq]
+          have := setOutsFrom_get (andZ (getT batch.length p)
+              (openAt (getT batch.length p).id (maskedDE (getT batch.length p) batch.toArray W).1 ds)
+              (openAt (getT batch.length p).id (maskedDE (getT batch.length p) batch.toArray W).2 es) W)
+            batch 0 (getT batch.length p).wires hnd
+            (fun g' hg' => by show g'.out < p.wires.size; rw [hsz p hp]; exact hout g' hg') j hj
+          rw [this, Nat.zero_add]
+        rw [h1]
+        have hjW : j / 64 < W := by omega
+        have h2 : ((ps.map (getT batch.length)).map fun q => bit (andZ q (openAt q.id (maskedDE q batch.toArray W).1 ds)
+              (openAt q.id (maskedDE q batch.toArray W).2 es) W) j) =
+            ((ps.map (getT batch.length)).map fun q => wget (andZ q (openAt q.id (maskedDE q batch.toArray W).1 ds)
+              (openAt q.id (maskedDE q batch.toArray W).2 es) W) (j / 64)).map (·.getLsbD (j % 64)) := by
+          simp only [List.map_map]; apply List.map_congr_left; intro p _; rfl
+        rw [h2, ← getLsbD_xorW]
+        have hw := and_words hst hn batch (by rw [hWd]; exact hW) (j / 64) (by rw [hWd]; exact hjW)
+        simp only [hWd, hds, hes] at hw
+        rw [hw, BitVec.getLsbD_and, getLsbD_xorW, getLsbD_xorW, List.map_map, List.map_map]
+        have hjs : j < batch.toArray.size := by simpa using hj
+        have e0 : (ps.map ((fun x : Word => x.getLsbD (j % 64)) ∘ fun p => wget (packIn p.wires batch.toArray W false) (j / 64))) =
+            ps.map fun p => p.wires.get batch[j].in0 := by
+          apply List.map_congr_left; intro p _
+          simp only [Function.comp]
+          rw [packIn_bit _ _ _ _ j hjs hjW]; simp
+        have e1 : (ps.map ((fun x : Word => x.getLsbD (j % 64)) ∘ fun p => wget (packIn p.wires batch.toArray W true) (j / 64))) =
+            ps.map fun p => p.wires.get batch[j].in1 := by
+          apply List.map_congr_left; intro p _
+          simp only [Function.comp]
+          rw [packIn_bit _ _ _ _ j hjs hjW]; simp
+        rw [e0, e1, ← recon_def, ← recon_def, hrec, hrec]
+        rfl
+      · have hx' : ∀ g ∈ batch, g.out ≠ x := fun g hg h => hx ⟨g, hg, h⟩
+        rw [evalPlainGates_frame batch x S hx', ← hrec x, recon_def]
+        apply congrArg
+        apply List.map_congr_left
+        intro p hp
+        simp only [Function.comp, finP, setOuts_eq]
+        rw [setOutsFrom_frame _ _ _ _ _ hx']
+        rfl
+
+/-! ### The level loop -/
+
+theorem St_wires {n L : Nat} {ps : List Party} (hst : St n L ps) (f : Party → Store Bool) :
+    St n L (ps.map fun p => { p with wires := f p }) := by
+  refine ⟨?_, ?_, ?_, ?_⟩
+  · have := hst.ids
+    unfold Ids at this ⊢
+    rw [List.map_map]; exact this
+  · intro q hq
+    simp only [List.mem_map] at hq
+    obtain ⟨p, hp, rfl⟩ := hq
+    exact hst.trip p hp
+  · intro q hq
+    simp only [List.mem_map] at hq
+    obtain ⟨p, hp, rfl⟩ := hq
+    exact hst.pwf p hp
+  · intro k hk
+    simp only [List.map_map]
+    exact hst.valid k hk
+
+theorem evalPlainGates_append (l1 l2 : List Gate) (S : Store Bool) :
+    evalPlainGates (l1 ++ l2) S = evalPlainGates l2 (evalPlainGates l1 S) := by
+  simp [evalPlainGates, List.foldl_append]
+
+/-- What `Network.run` requires of one level. -/
+def BlockOK (N : Nat) (b : List Gate × List Gate) : Prop :=
+  (∀ g ∈ b.1, (g.op = .xor ∨ g.op = .xnor ∨ g.op = .inv) ∧ g.out < N) ∧
+  (∀ g ∈ b.2, g.op = .and ∧ g.out < N) ∧ (b.2.map (·.out)).Nodup ∧
+  (∀ g ∈ b.2, ∀ h ∈ b.2, h.out ≠ g.in0 ∧ h.out ≠ g.in1)
+
+/-- Triple words the level loop consumes. -/
+def needW (bs : List (List Gate × List Gate)) : Nat := (bs.map fun b => (b.2.length + 63) / 64).sum
+
+theorem sim_restFold {n N L : Nat} (hn : 0 < n) : ∀ (rest : List Gate) (ps : List Party) (S : Store Bool),
+    St n L ps → Sim N ps S → (∀ g ∈ rest, (g.op = .xor ∨ g.op = .xnor ∨ g.op = .inv) ∧ g.out < N) →
+    St n L (ps.map fun p => { p with wires := rest.foldl (fun w g => evalRest p.id g w) p.wires }) ∧
+    Sim N (ps.map fun p => { p with wires := rest.foldl (fun w g => evalRest p.id g w) p.wires })
+      (evalPlainGates rest S) := by
+  intro rest
+  induction rest with
+  | nil =>
+    intro ps S hst hsim _
+    have : (ps.map fun p => ({ p with wires := ([] : List Gate).foldl (fun w g => evalRest p.id g w) p.wires } : Party)) = ps := by
+      conv => rhs; rw [← List.map_id ps]
+      apply List.map_congr_left; intro p _; rfl
+    rw [this]
+    exact ⟨hst, hsim⟩
+  | cons g t ih =>
+    intro ps S hst hsim hok
+    have e : (ps.map fun p => ({ p with wires := (g :: t).foldl (fun w g => evalRest p.id g w) p.wires } : Party)) =
+        (restStep g ps).map fun p => { p with wires := t.foldl (fun w g => evalRest p.id g w) p.wires } := by
+      simp only [restStep, List.map_map]
+      rfl
+    rw [e, evalPlainGates_cons]
+    have hg := hok g List.mem_cons_self
+    exact ih (restStep g ps) (g.evalPlain S) (St_wires hst _) (sim_rest g hst.ids hn hsim hg.2 hg.1)
+      (fun g' hg' => hok g' (List.mem_cons_of_mem _ hg'))
+
+theorem sim_blocks {n N : Nat} (hn : 0 < n) : ∀ (bs : List (List Gate × List Gate)) (ps : List Party)
+    (S : Store Bool) (L : Nat), St n L ps → Sim N ps S → (∀ b ∈ bs, BlockOK N b) → needW bs ≤ L →
+    ∃ ps', runBlocks bs ps = some ps' ∧ St n (L - needW bs) ps' ∧
+      Sim N ps' (evalPlainGates (bs.flatMap fun b => b.1 ++ b.2) S) := by
+  intro bs
+  induction bs with
+  | nil =>
+    intro ps S L hst hsim _ _
+    exact ⟨ps, rfl, by simpa [needW] using hst, by simpa [evalPlainGates] using hsim⟩
+  | cons b bs ih =>
+    intro ps S L hst hsim hok hL
+    obtain ⟨rest, ands⟩ := b
+    have hb := hok (rest, ands) List.mem_cons_self
+    have hL' : (ands.length + 63) / 64 + needW bs ≤ L := by simpa [needW] using hL
+    obtain ⟨hst1, hsim1⟩ := sim_restFold (L := L) hn rest ps S hst hsim hb.1
+    simp only [runBlocks, List.flatMap_cons, evalPlainGates_append]
+    by_cases hne : ands = []
+    · subst hne
+      have : andStep [] (ps.map fun p => { p with wires := rest.foldl (fun w g => evalRest p.id g w) p.wires }) =
+          some (ps.map fun p => { p with wires := rest.foldl (fun w g => evalRest p.id g w) p.wires }) := rfl
+      rw [this]
+      have hL2 : needW bs ≤ L := by omega
+      obtain ⟨ps', h1, h2, h3⟩ := ih _ _ L hst1 hsim1 (fun b hb => hok b (List.mem_cons_of_mem _ hb)) hL2
+      refine ⟨ps', h1, ?_, by simpa [evalPlainGates] using h3⟩
+      have : needW ((rest, []) :: bs) = needW bs := by simp [needW]
+      rw [this]; exact h2
+    · obtain ⟨ps2, h1, hst2, hsim2⟩ := sim_ands hst1 hn hsim1 ands hne (fun g hg => (hb.2.1 g hg).1)
+        (fun g hg => (hb.2.1 g hg).2) hb.2.2.1 hb.2.2.2 (by omega)
+      rw [h1]
+      obtain ⟨ps', h3, h4, h5⟩ := ih ps2 _ (L - (ands.length + 63) / 64) hst2 hsim2
+        (fun b hb => hok b (List.mem_cons_of_mem _ hb)) (by omega)
+      refine ⟨ps', h3, ?_, h5⟩
+      have : L - needW ((rest, ands) :: bs) = L - (ands.length + 63) / 64 - needW bs := by
+        simp [needW]; omega
+      rw [this]; exact h4
+
 end Mpc.Gmw
